@@ -64,8 +64,10 @@ S2EdgeScope ==
      rn |-> 1, rd |-> 2, nd |-> 4, savegr |-> FALSE] :
        p \in {<<1, 1>>, <<0, 0>>}, w \in {<<1, 4>>, <<1, 8>>}, q \in {<<7, 8>>, <<8, 8>>, <<10, 4>>} }
 \* the single-frame view of frame f (the operators of LocalOrder take one configuration)
-S2P(f) == [d |-> c.d, H |-> c.H, ppp |-> c.ppp, S |-> c.S, pos |-> c.fr[f], types |-> c.types, sig |-> c.sig,
-           rn |-> c.rn, rd |-> c.rd, nd |-> c.nd]
+S2Raw(f) == [d |-> c.d, H |-> c.H, ppp |-> c.ppp, S |-> c.S, pos |-> c.fr[f], types |-> c.types, sig |-> c.sig,
+             rn |-> c.rn, rd |-> c.rd, nd |-> c.nd]
+\* all frames with their pair tables (bind with LET: evaluated once per use site)
+S2Frames == [f \in 1..Len(c.fr) |-> S2Prep(S2Raw(f))]
 
 (***************************************************************************)
 (* tetra                                                                   *)
@@ -158,12 +160,17 @@ Spec == Init /\ [][Next]_vars
 (***************************************************************************)
 (* invariants                                                              *)
 (***************************************************************************)
-InvS2ContribExact     == IsM("s2") => \A f \in 1..Len(c.fr) : S2ContribExact(S2P(f))
-InvS2ContribSymmetric == IsM("s2") => \A f \in 1..Len(c.fr) : S2ContribSymmetric(S2P(f))
-InvS2ClassConsistent  == IsM("s2") => \A f \in 1..Len(c.fr) : S2ClassConsistent(S2P(f))
+InvS2ContribExact     == IsM("s2") => LET P == S2Frames IN \A f \in 1..Len(c.fr) : S2ContribExact(P[f])
+InvS2ContribSymmetric == IsM("s2") => LET P == S2Frames IN \A f \in 1..Len(c.fr) : S2ContribSymmetric(P[f])
+InvS2ClassConsistent  == IsM("s2") => LET P == S2Frames IN \A f \in 1..Len(c.fr) : S2ClassConsistent(P[f])
+\* the directly computed pair tables agree with Cell!MinImage (sampled pairs of every configuration)
+InvFastImage ==
+  /\ IsM("s2") => \A f \in 1..Len(c.fr) : \A j \in 2..Len(c.types) : LoFastIsMinImage(c.H, c.ppp, c.fr[f], 1, j)
+  /\ IsM("tetra") => \A j \in {2, 3, Len(c.pos)} : LoFastIsMinImage(c.H, c.ppp, c.pos, 1, j) /\ LoFastIsMinImage(c.H, c.ppp, c.pos, j, 1)
 \* the edge family really has neighbours exactly at r_max, decided sharply (not as ties)
-InvS2EdgeFamily == (IsM("s2") /\ c.id = 0) => /\ S2HasSharpEdge(S2P(1), 1) /\ ~S2Tie(S2P(1), 1)
-                                              /\ 2 \notin Range(S2Contrib(S2P(1), 1)) /\ 3 \notin Range(S2Contrib(S2P(1), 1))
+InvS2EdgeFamily == (IsM("s2") /\ c.id = 0) =>
+   LET P == S2Frames IN /\ S2HasSharpEdge(P[1], 1) /\ ~S2Tie(P[1], 1)
+                        /\ 2 \notin Range(S2Contrib(P[1], 1)) /\ 3 \notin Range(S2Contrib(P[1], 1))
 
 TeRT == TeTable(c.H, c.ppp, c.pos)
 TeTT == TeTieTable(c.H, c.ppp, c.pos)
@@ -193,16 +200,16 @@ InvGyAxisKinds      == (IsM("gyr") /\ c.kind = "axis") => GyAxisAligned(c.base)
 (* emission                                                                *)
 (***************************************************************************)
 CaseS2 ==
+  LET P == S2Frames  T == Len(c.fr)  n == Len(c.types) IN
   [ m |-> "s2", id |-> c.id, d |-> c.d, H |-> c.H, ppp |-> c.ppp, S |-> c.S, fr |-> c.fr, types |-> c.types,
     sig |-> c.sig, rn |-> c.rn, rd |-> c.rd, nd |-> c.nd, savegr |-> c.savegr,
-    contrib |-> [f \in 1..Len(c.fr) |-> [i \in 1..Len(c.types) |-> S2Contrib(S2P(f), i)]],
-    tie     |-> [f \in 1..Len(c.fr) |-> [i \in 1..Len(c.types) |-> S2Tie(S2P(f), i)]],
-    edge    |-> [f \in 1..Len(c.fr) |-> [i \in 1..Len(c.types) |-> S2HasSharpEdge(S2P(f), i)]],
-    cls     |-> [f \in 1..Len(c.fr) |-> [i \in 1..Len(c.types) |-> S2Class(S2P(f), i)]],
-    s2      |-> [f \in 1..Len(c.fr) |-> [i \in 1..Len(c.types) |-> S2Term(S2P(f), i)]],
-    rbins   |-> [k \in 1..c.nd |-> S2RBin(S2P(1), k)],
+    contrib |-> [f \in 1..T |-> [i \in 1..n |-> S2Contrib(P[f], i)]],
+    tie     |-> [f \in 1..T |-> [i \in 1..n |-> S2Tie(P[f], i)]],
+    edge    |-> [f \in 1..T |-> [i \in 1..n |-> S2HasSharpEdge(P[f], i)]],
+    cls     |-> [f \in 1..T |-> [i \in 1..n |-> S2Class(P[f], i)]],
+    s2      |-> [f \in 1..T |-> [i \in 1..n |-> S2Term(P[f], i)]],
     g       |-> IF c.savegr
-                THEN [f \in 1..Len(c.fr) |-> [i \in 1..Len(c.types) |-> [k \in 1..c.nd |-> S2GT(S2P(f), i, k)]]]
+                THEN [f \in 1..T |-> [i \in 1..n |-> [k \in 1..c.nd |-> S2GT(P[f], i, k)]]]
                 ELSE << >> ]
 
 TetraRow(rt, tt, i) ==
